@@ -1,83 +1,8 @@
 (* Handler specification of RequestVote (C08), for every node state and every
    request. *)
 From RaftV Require Import Node.Leader.
+From RaftV Require Export Proofs.Frame.
 Open Scope N_scope.
-
-(* ---- frame lemmas: which fields the helper transitions touch ---- *)
-Lemma tick_write_fields n :
-  let n' := snd (tick_write n) in
-  n_term n' = n_term n /\ n_vote n' = n_vote n /\ n_pterm n' = n_pterm n /\ n_pvote n' = n_pvote n /\
-  n_log n' = n_log n /\ n_role n' = n_role n /\ n_id n' = n_id n.
-Proof.
-  cbn zeta. unfold tick_write. destruct (n_frozen n); [cbn; repeat split; auto|].
-  destruct (n_budget n) as [k|]; [|cbn; repeat split; auto].
-  destruct (k =? 0); cbn; repeat split; auto.
-Qed.
-
-Lemma persist_fields n :
-  let n' := persist n in
-  n_term n' = n_term n /\ n_vote n' = n_vote n /\ n_log n' = n_log n /\ n_role n' = n_role n /\
-  n_pterm n' = (if fst (tick_write n) then n_term n else n_pterm n) /\
-  n_pvote n' = (if fst (tick_write n) then n_vote n else n_pvote n).
-Proof.
-  unfold persist. pose proof (tick_write_fields n) as H. destruct (tick_write n) as [ok n1]. cbn [snd fst] in *.
-  destruct H as (H1 & H2 & H3 & H4 & H5 & H6 & H7).
-  destruct ok; cbn; repeat split; congruence.
-Qed.
-
-Lemma respond_fields n fid r :
-  let n' := respond n fid r in
-  n_term n' = n_term n /\ n_vote n' = n_vote n /\ n_pterm n' = n_pterm n /\ n_pvote n' = n_pvote n /\
-  n_log n' = n_log n /\ n_role n' = n_role n /\ n_frozen n' = n_frozen n /\ n_budget n' = n_budget n.
-Proof.
-  cbn zeta. unfold respond. destruct (n_frozen n) eqn:E; [repeat split; auto|].
-  destruct (existsb _ _); cbn; repeat split; auto.
-Qed.
-
-Lemma respond_all_fields fids : forall n r,
-  let n' := respond_all n fids r in
-  n_term n' = n_term n /\ n_vote n' = n_vote n /\ n_pterm n' = n_pterm n /\ n_pvote n' = n_pvote n /\
-  n_log n' = n_log n /\ n_role n' = n_role n /\ n_frozen n' = n_frozen n /\ n_budget n' = n_budget n.
-Proof.
-  induction fids as [|f fids IH]; intros n r; cbn [respond_all fold_left]; [cbn zeta; repeat split; auto|].
-  fold (respond_all (respond n f r) fids r).
-  specialize (IH (respond n f r) r). pose proof (respond_fields n f r) as H. cbn zeta in *.
-  destruct IH as (A1 & A2 & A3 & A4 & A5 & A6 & A7 & A8). destruct H as (B1 & B2 & B3 & B4 & B5 & B6 & B7 & B8).
-  repeat split; congruence.
-Qed.
-
-(* becomeFollower: term becomes [term]; the vote survives iff the term is unchanged;
-   the log is untouched; the persistent pair follows if the write is allowed. *)
-Lemma become_follower_fields now n leader term :
-  let n' := become_follower now n leader term in
-  n_term n' = term /\ n_vote n' = (if term =? n_term n then n_vote n else None) /\
-  n_log n' = n_log n /\ n_role n' = Follower /\
-  (n_pterm n' = term /\ n_pvote n' = n_vote n' \/ n_pterm n' = n_pterm n /\ n_pvote n' = n_pvote n).
-Proof.
-  cbn zeta. unfold become_follower, notify_lost_leadership.
-  set (n1 := n <| n_role := Follower |> <| n_term := term |> <| n_leader := Some leader |>
-               <| n_vote := if term =? n_term n then n_vote n else None |>).
-  pose proof (persist_fields n1) as HP. cbn zeta in HP. destruct HP as (P1 & P2 & P3 & P4 & P5 & P6).
-  set (n2 := reset_snapshot_files (persist n1)).
-  assert (E2 : n_term n2 = n_term (persist n1) /\ n_vote n2 = n_vote (persist n1) /\ n_log n2 = n_log (persist n1) /\
-               n_role n2 = n_role (persist n1) /\ n_pterm n2 = n_pterm (persist n1) /\ n_pvote n2 = n_pvote (persist n1))
-    by (subst n2; unfold reset_snapshot_files; cbn; repeat split; reflexivity).
-  destruct E2 as (Q1 & Q2 & Q3 & Q4 & Q5 & Q6).
-  set (n3 := respond_all n2 (map ro_fid (n_ro n2)) FNotLeader).
-  pose proof (respond_all_fields (map ro_fid (n_ro n2)) n2 FNotLeader) as R1. cbn zeta in R1. fold n3 in R1.
-  set (n4 := respond_all n3 (map snd (n_pending n2)) FNotLeader).
-  pose proof (respond_all_fields (map snd (n_pending n2)) n3 FNotLeader) as R2. cbn zeta in R2. fold n4 in R2.
-  destruct R1 as (A1 & A2 & A3 & A4 & A5 & A6 & _). destruct R2 as (B1 & B2 & B3 & B4 & B5 & B6 & _).
-  assert (E4 : forall m, n_term (new_opmanager now m) = n_term m /\ n_vote (new_opmanager now m) = n_vote m /\
-                         n_log (new_opmanager now m) = n_log m /\ n_role (new_opmanager now m) = n_role m /\
-                         n_pterm (new_opmanager now m) = n_pterm m /\ n_pvote (new_opmanager now m) = n_pvote m)
-    by (intros m; unfold new_opmanager; cbn; repeat split; reflexivity).
-  destruct (E4 n4) as (C1 & C2 & C3 & C4 & C5 & C6).
-  rewrite C1, C2, C3, C4, C5, C6, B1, B2, B3, B4, B5, B6, A1, A2, A3, A4, A5, A6, Q1, Q2, Q3, Q4, Q5, Q6,
-    P1, P2, P3, P4, P5, P6.
-  subst n1. cbn. repeat split.
-  destruct (fst (tick_write _)); [left|right]; split; reflexivity.
-Qed.
 
 (* ---- the handler ---- *)
 Definition rv_granted (r : option rv_resp) : bool := match r with Some p => rvr_granted p | None => false end.
@@ -109,7 +34,7 @@ Proof.
   destruct (negb (rv_prevote q) && match n_vote n1 with Some v => negb (v =? rv_cand q) | None => false end); [cbn [fst snd]; split; assumption|].
   destruct ((rv_last_term q <? last_term (n_log n1)) || _); [cbn [fst snd]; split; assumption|].
   cbn [fst]. destruct (rv_prevote q); [split; assumption|].
-  pose proof (persist_fields (n1 <| n_contact := now |> <| n_vote := Some (rv_cand q) |>)) as H. cbn zeta in H.
+  pose proof (persist_core (n1 <| n_contact := now |> <| n_vote := Some (rv_cand q) |>)) as H. cbn zeta in H.
   destruct H as (P1 & _ & P3 & _). rewrite P1, P3. cbn [n_term n_log set]. split; assumption.
 Qed.
 
